@@ -138,6 +138,8 @@ func verifEmulateExitErr(err error, opts *ergo.GlobalOptions) {
 	}
 }
 
+const verifPtyEnd = "\x00<<verif-pty-end-7f3a>>"
+
 type winsize struct{ Rows, Cols, X, Y uint16 }
 
 func verifOpenPty(cols, rows int) (master, slave *os.File, err error) {
@@ -298,7 +300,15 @@ func verifRunOne(req verifReq) (res verifRes) {
 		wg.Add(1)
 		go func() {
 			defer wg.Done()
-			_, _ = io.Copy(&outBuf, m) // ends with EIO when the slave closes
+			// read until the end marker written after the command (closing the slave first can lose buffered output)
+			buf := make([]byte, 65536)
+			for {
+				n, err := m.Read(buf)
+				outBuf.Write(buf[:n])
+				if err != nil || bytes.Contains(outBuf.Bytes(), []byte(verifPtyEnd)) {
+					return
+				}
+			}
 		}()
 	} else {
 		outW = verifMemfd("stdout")
@@ -346,6 +356,9 @@ func verifRunOne(req verifReq) (res verifRes) {
 	var outBytes []byte
 	if ptyMaster == nil {
 		outBytes = readBack(outW)
+	} else {
+		_, _ = outW.WriteString(verifPtyEnd)
+		wg.Wait()
 	}
 	outW.Close()
 	errW.Close()
@@ -354,6 +367,9 @@ func verifRunOne(req verifReq) (res verifRes) {
 	if ptyMaster != nil {
 		ptyMaster.Close()
 		outBytes = outBuf.Bytes()
+		if i := bytes.Index(outBytes, []byte(verifPtyEnd)); i >= 0 {
+			outBytes = outBytes[:i]
+		}
 	}
 	res = verifRes{Out: outBytes, Err: errBytes, Exit: exit, Panic: panicked}
 	if sr != nil {
